@@ -257,6 +257,18 @@ func (purityStream) Execute(c Case) {
 				obs["repeatable"] = false
 				obs["diverged"] = fmt.Sprintf("step %d: %s vs fresh %s", n, jsonImage(o1), jsonImage(o2))
 			}
+			// the devices of the request applied one after the other onto ONE OCI spec (what is set by one edit is
+			// overwritten by the next - in the OCI spec, never in the cached Specs), against the same on a fresh cache
+			accC, accF := mk(), mk()
+			for _, q := range devs {
+				if cd, fd := cache.GetDevice(q), fresh.GetDevice(q); cd != nil && fd != nil {
+					_, _ = cd.ApplyEdits(accC), fd.ApplyEdits(accF)
+				}
+			}
+			if jsonImage(accC) != jsonImage(accF) {
+				obs["repeatable"] = false
+				obs["diverged"] = fmt.Sprintf("step %d: devices applied onto one OCI spec: %s vs fresh %s", n, jsonImage(accC), jsonImage(accF))
+			}
 			// the edits of the cached objects applied directly (Device.ApplyEdits, Spec.ApplyEdits), twice, against
 			// the same on a fresh cache
 			for _, q := range devs {
